@@ -285,17 +285,40 @@ def mon_c11(ex, info, col):
                         continue
                     col.checks["c11.inversion-candidates"] += 1
                     col.nontrivial.add(hash((info.key, rule, low, high, w, round(keys[low], 6), round(keys[high], 6))))
-                    if info.worker_static_ok(w, high) is not None or info.needs_facility(high) or info.needs_facility(low):
+                    if info.worker_static_ok(w, high) is not None:
                         continue
                     hw = sa["tasks"][high][2]
+                    hf = sa["tasks"][high][3]
                     if w in hw:
                         continue
-                    if any(info.is_solo(x) for x in hw):
+                    if any(info.is_solo(x) for x in hw) or any(info.is_solo(x) for x in hf):
                         continue
                     if info.is_solo(w) and hw:
                         continue
+                    pair = None
+                    if info.needs_facility(high):
+                        # the higher-priority task needs a (worker, facility) pair: claimed for single-task components
+                        # that are placed, when a FREE eligible facility the worker can operate is still there
+                        cn = info.task_comp.get(high)
+                        if cn is None or len(info.comp_tasks[cn]) != 1:
+                            continue
+                        wpn = sa["components"][cn][1]
+                        if wpn is None:
+                            continue  # (a single-task component is placed at its own task's turn, before facilities are searched)
+                        for f in info.wp_facilities.get(wpn, []):
+                            fst, fa = sa["facilities"][f]
+                            if fst != S.R_FREE or fa or M.res_absent(ex, info, f, t):
+                                continue
+                            if info.facility_static_ok(f, high) is not None or not info.can_operate(w, f):
+                                continue
+                            if info.is_solo(f) and hf:
+                                continue
+                            pair = f
+                            break
+                        if pair is None:
+                            continue
                     out.append(M.V("C11", "C11:allocation-inverted-priority:%s" % rule, ex,
-                                   {"t": t, "worker": w, "given_to": low, "key_low": keys[low], "higher_priority_task": high, "key_high": keys[high], "workers_of_high": hw}))
+                                   {"t": t, "worker": w, "given_to": low, "key_low": keys[low], "higher_priority_task": high, "key_high": keys[high], "workers_of_high": hw, "free_facility_for_high": pair}))
     return out
 
 
@@ -317,6 +340,17 @@ def rule_items(tier):
     for wrule, frule, wprule in itertools.product(("MW", "SSP", "VC", "HSV"), ("MW", "SSP", "VC", "HSV"), ("FSS", "SSP")):
         sp = dict(base, tasks=[dict(t, wrule=wrule, frule=frule, wprule=wprule) for t in base["tasks"]])
         for rule in (("TSLACK",) if tier == "quick" else ("TSLACK", "SPT", "FIFO")):
+            out.append((sp, {"rule": rule, "max_time": F.seq_bound(sp) + 8}))
+    return out
+
+
+def fac_alloc_items(tier):
+    out = []
+    for sp in F.fac_specs(tier, only_single_task_components=True):
+        nf = [bool(t.get("nf")) for t in sp["tasks"]]
+        if len(nf) < 2 or all(nf) or sp["links"]:
+            continue
+        for rule in ("SPT", "LPT", "TSLACK"):
             out.append((sp, {"rule": rule, "max_time": F.seq_bound(sp) + 8}))
     return out
 
@@ -353,6 +387,8 @@ def run(tier, seed):
     ai = alloc_items(tier)
     H, D = (4, 1) if tier == "quick" else (5, 2)
     col.merge(stepcheck.explore(ai, [mon_c11], H, D, who_fn=lambda sp: stepcheck.default_who(sp, facilities=False), seed=seed))
+    fi = fac_alloc_items(tier)
+    col.merge(stepcheck.explore(fi, [mon_c11], 3, 1 if tier == "quick" else 2, who_fn=lambda sp: stepcheck.default_who(sp, project=False), seed=seed))
     ri = rule_items(tier)
     col.merge(stepcheck.explore(ri, [mon_rules_accepted, mon_c11], 3, 1, seed=seed))
     meta = {
@@ -362,7 +398,8 @@ def run(tier, seed):
         "main_workplace_id in {None, identical object, equal but distinct string, other}) x 4 rules x target workplace given or not; facilities x 4 rule values; workplaces over capacity/placed/skill x 2 rules: "
         "result is a permutation, ordered by the documented primary key, no exception; (allocation) 3 (thorough 4) tasks with distinct and tied keys x {none, FS, SS link} x {POOL1,POOL2,SOLO} x 9 rules x both "
         "task_list orders, explored over absence answers up to H with <= D deviations: no worker is newly given to a task while a strictly higher-priority READY/WORKING task it is eligible for could still "
-        "accept it; non-trivial = inputs with at least two different keys / distinct (low, high, worker) candidate triples" % n,
+        "accept it (for a facility-needing higher-priority task of a single-task component: as a pair with a FREE eligible facility of its workplace; "
+        "explored on the FAC family with one facility task and one plain task under SPT/LPT/TSLACK with worker and facility absences); non-trivial = inputs with at least two different keys / distinct (low, high, worker) candidate triples" % n,
         "bounds": {"max_list_len": n, "H": H, "D": D, "alloc_models": len(ai)},
         "assumptions": ["only the primary key of each rule is claimed (documented tie-breakers and stability are not)", "LWRPT/SWRPT tie inside one workflow: no allocation claim"],
     }
